@@ -152,6 +152,9 @@ def gen(seed, run, sub="pipe", tier="quick"):
     if transport == "socket":
         fr = r.choice([0, 1, 3, 7, 64])
         draws["cut"] = [r.choice([fr, fr, 0.5, 0]) for _ in range(24)] if fr else []
+        if r.random() < 0.4:      # reply lines travelling in two segments, sometimes > read time-out apart
+            draws["seg"] = [r.choice([0, 0, 0.3, 0.5, 0.9]) for _ in range(16)]
+            draws["seggap"] = [r.choice([0.0, 0.001, 0.1, 0.3, 0.6]) for _ in range(8)]
     ops = [["connect"], ["settle"]] + [["write", i] for i in range(n)] + [["disconnect", True]]
     return {
         "lane": "c18", "sub": sub, "transport": transport, "via": r.choice(["delegate", "bare"]),
